@@ -37,9 +37,10 @@ func init() {
 	)
 	addSelfTests("C04",
 		mutation{"dead-predecessor-cleared-unconditionally", "chord/local_tasks.go", "		if n.predecessor == pre {\n			n.predecessor = nil\n			n.logger.Info(\"Discovered dead predecessor\",\n				zap.Object(\"old\", pre.Identity()),\n				zap.String(\"new\", \"nil\"),\n			)\n		}", "		n.predecessor = nil\n		n.logger.Info(\"Discovered dead predecessor\",\n			zap.Object(\"old\", pre.Identity()),\n			zap.String(\"new\", \"nil\"),\n		)", "snapshot-cas"},
-		mutation{"state-gate-dropped", "chord/local_kv.go", "	if state != chord.Active {\n		l.Debug(", "	if state == chord.Inactive {\n		l.Debug(", "kv-gate"},
-		mutation{"gate-refusal-nonretryable", "chord/local_kv.go", "		n.kvStaleCount.Inc()\n		return zeroV, chord.ErrKVStaleOwnership\n	}\n\n	if n.surrogate != nil {", "		n.kvStaleCount.Inc()\n		return zeroV, chord.ErrNodeGone\n	}\n\n	if n.surrogate != nil {", "gate-refusal"},
-		mutation{"unlock-before-handler", "chord/local_kv.go", "	n.predecessorMu.RLock()\n	defer n.predecessorMu.RUnlock()\n\n	if n.predecessor != nil {\n		l = l.With", "	n.predecessorMu.RLock()\n	n.predecessorMu.RUnlock()\n\n	if n.predecessor != nil {\n		l = l.With", "kv-gate"},
+		mutation{"state-gate-dropped", "chord/local_kv.go", "		if state != chord.Active {\n			l.Debug(", "		if state == chord.Inactive {\n			l.Debug(", "kv-gate"},
+		mutation{"gate-refusal-nonretryable", "chord/local_kv.go", "			n.kvStaleCount.Inc()\n			return zeroV, chord.ErrKVStaleOwnership\n		}\n\n		if n.surrogate != nil {", "			n.kvStaleCount.Inc()\n			return zeroV, chord.ErrNodeGone\n		}\n\n		if n.surrogate != nil {", "gate-refusal"},
+		mutation{"unlock-before-handler", "chord/local_kv.go", "		n.predecessorMu.RLock()\n		defer n.predecessorMu.RUnlock()\n\n		if n.predecessor != nil {\n			l = l.With", "		n.predecessorMu.RLock()\n		n.predecessorMu.RUnlock()\n\n		if n.predecessor != nil {\n			l = l.With", "kv-gate"},
+		mutation{"surrogate-forward-under-read-locks", "chord/local_kv.go", "			forward = n.surrogate\n			return zeroV, nil", "			return handler(ctx, n.surrogate, targetSurrogate, id)", "forward-unlocked"},
 		mutation{"sibling-wrong-method", "chord/local_kv.go", "			return nil, kv.PrefixRemove(ctx, prefix, child)", "			return nil, kv.PrefixAppend(ctx, prefix, child)", "kv-sibling"},
 		mutation{"sibling-wrong-key", "chord/local_kv.go", "	return kvMiddleware(ctx, n, prefix,\n		func(ctx context.Context, kv chord.KV, target kvTargetType, id uint64) (bool, error) {", "	return kvMiddleware(ctx, n, child,\n		func(ctx context.Context, kv chord.KV, target kvTargetType, id uint64) (bool, error) {", "kv-sibling"},
 		mutation{"listkeys-no-state-gate", "chord/local_kv.go", "			if state != chord.Active {\n				n.kvStaleCount.Inc()\n				return nil, chord.ErrKVStaleOwnership\n			}\n", "			_ = state\n", "kv-gate"},
@@ -390,26 +391,81 @@ func runC04(c *Ctx) {
 	}
 	c.Floor("uses of LocalNode.kv", uses, 9)
 
+	// forwarded requests leave this node without its pointer locks: the receiving node may
+	// route the request back here (while the ring settles the surrogate's lookup can still
+	// name us), and sync.RWMutex is not reentrant - a second RLock queued behind a waiting
+	// membership change (RequestToJoin / Leave take the write lock) never returns
+	kvOps := map[string]bool{"Put": true, "Get": true, "Delete": true, "PrefixAppend": true, "PrefixList": true, "PrefixContains": true, "PrefixRemove": true, "Acquire": true, "Renew": true, "Release": true, "ListKeys": true}
+	nfwd := 0
+	for _, fn := range c.AllFuncs("chord") {
+		for _, call := range fn.Calls(true, func(call *ast.CallExpr) bool { return true }) {
+			g := fn.enclosing(call)
+			what := ""
+			if id, ok := ast.Unparen(call.Fun).(*ast.Ident); ok && fn.Name == "chord.kvMiddleware" && len(call.Args) == 4 {
+				if _, isVar := g.Info.ObjectOf(id).(*types.Var); isVar && g.FieldKey(call.Args[1]) != "chord.LocalNode.kv" {
+					what = "handler(" + g.Str(call.Args[1]) + ")"
+				}
+			}
+			if se, ok := ast.Unparen(call.Fun).(*ast.SelectorExpr); ok && kvOps[se.Sel.Name] {
+				if tv, ok := g.Info.Types[se.X]; ok && g.FieldKey(se.X) != "chord.LocalNode.kv" {
+					ts := tv.Type.String()
+					if strings.HasSuffix(ts, "spec/chord.VNode") || strings.HasSuffix(ts, "spec/chord.KV") {
+						if fd := fn.root().Decl; fd != nil && fd.Type.Params != nil {
+							// the handler literals handed to kvMiddleware call kv.<op> on
+							// their parameter: the forward is decided where kvMiddleware
+							// invokes the handler
+							if lit := g.Lit; lit != nil && len(lit.Type.Params.List) == 4 {
+								continue
+							}
+						}
+						what = g.Str(se.X) + "." + se.Sel.Name
+					}
+				}
+			}
+			if what == "" {
+				continue
+			}
+			nfwd++
+			fs := g.FactsAt(call)
+			var held []string
+			for _, fa := range fs.Facts {
+				if fa.Kind == FHeld && (strings.HasSuffix(fa.Lock, ".surrogateMu") || strings.HasSuffix(fa.Lock, ".predecessorMu")) {
+					held = append(held, fmt.Sprintf("%s(%c)", fa.Lock, fa.Mode))
+				}
+			}
+			sort.Strings(held)
+			c.Ob("forward-unlocked", strings.TrimPrefix(fn.Name, "chord.")+"#"+what, call.Pos(), len(held) == 0, "a KV request is handed to another node only with this node's surrogateMu / predecessorMu released (the request can come back: a recursive RLock behind a waiting writer deadlocks the node); held here: "+strings.Join(held, ", "))
+		}
+	}
+	c.Floor("forwarded KV request sites", nfwd, 2)
+
 	// gate refusals
 	kvm := c.Func("chord", "", "kvMiddleware")
 	retry := retryableSentinels(c)
 	nref := 0
-	for _, r := range kvm.Returns() {
-		if len(r.Results) != 2 {
-			continue
-		}
-		pv := kvm.Prov(r.Results[1])
-		if !strings.HasPrefix(pv, "global:spec/chord.Err") {
-			continue
-		}
-		nref++
-		name := strings.TrimPrefix(pv, "global:spec/chord.")
-		c.Ob("gate-refusal", "kvMiddleware#returns-"+name, r.Pos(), retry[name], "a refusal at the KV gate must be retryable so callers re-route instead of failing")
-		fs := kvm.FactsAt(r)
-		if fs.Cmp(func(e, tag ast.Expr, truth bool, fa *Fact) bool {
-			return tag != nil && truth && constName(kvm, e) == "ErrNodeGone"
-		}) {
-			c.Ob("gate-refusal", "kvMiddleware#ErrNodeGone-mapped", r.Pos(), name == "ErrKVStaleOwnership", "a leaving owner (ErrNodeGone from the lookup) is reported as stale ownership (retryable)")
+	// the gate may sit in the function itself or in a literal it runs (the locked section)
+	gates := []*Fn{kvm}
+	for _, lit := range kvm.Lits() {
+		gates = append(gates, kvm.Closure(lit))
+	}
+	for _, g := range gates {
+		for _, r := range g.Returns() {
+			if len(r.Results) != 2 {
+				continue
+			}
+			pv := g.Prov(r.Results[1])
+			if !strings.HasPrefix(pv, "global:spec/chord.Err") {
+				continue
+			}
+			nref++
+			name := strings.TrimPrefix(pv, "global:spec/chord.")
+			c.Ob("gate-refusal", "kvMiddleware#returns-"+name, r.Pos(), retry[name], "a refusal at the KV gate must be retryable so callers re-route instead of failing")
+			fs := g.FactsAt(r)
+			if fs.Cmp(func(e, tag ast.Expr, truth bool, fa *Fact) bool {
+				return tag != nil && truth && constName(g, e) == "ErrNodeGone"
+			}) {
+				c.Ob("gate-refusal", "kvMiddleware#ErrNodeGone-mapped", r.Pos(), name == "ErrKVStaleOwnership", "a leaving owner (ErrNodeGone from the lookup) is reported as stale ownership (retryable)")
+			}
 		}
 	}
 	c.Floor("kvMiddleware sentinel refusals", nref, 3)
